@@ -66,6 +66,31 @@ def check(run):
         run.count("user_thread_after_user_thread_runs")
         for sig, text in runoracle.c02_oracle(c, r):
             run.violation(sig, text, {"case": c, "outcome": r.get("outcome")})
+    # directed family: every test passes and the ONLY failure is made by a teardown (teardown_suite hook, suite / session fixture
+    # teardown) or by a suite setup nobody... : the run is not successful
+    tcases = []
+    for k, (where, how, nthreads) in enumerate([("teardown_suite", ["check", False, 1], 1), ("teardown_suite", ["log", 3, 1], 2),
+                                               ("suite_fixture", ["raise", "Exception"], 1), ("session_fixture", ["log", 3, 1], 2),
+                                               ("session_fixture", ["check", False, 1], 1), ("teardown_test", ["log", 3, 1], 1)]):
+        hooks = dict(nohooks)
+        fixtures, args = [], []
+        if where in ("teardown_suite", "teardown_test"):
+            hooks[where] = [["mark", 1], how]
+        else:
+            fixtures = [{"name": "f5", "scope": "suite" if where == "suite_fixture" else "session", "params": [], "per_thread": False,
+                         "generator": True, "setup": [["mark", 1]], "teardown": [["mark", 2], how]}]
+            args = ["f5"]
+        tests = [dict(tst("t%d" % (7 + i), i, [["log", 1, 10 + i]]), args=list(args)) for i in range(2)]
+        tcases.append({"id": "vt%d" % k, "project": {"fixtures": fixtures, "suites": [
+            {"name": "s6", "disabled": False, "rank": 0, "hooks": hooks, "injected": [], "tests": tests, "subs": []}]},
+            "sched": projgen.gen_sched(run.rng), "options": {"nb_threads": nthreads, "stop_on_failure": False, "force_disabled": False}})
+    tres = engine.cosim(run, tcases)
+    for c in tcases:
+        r = tres.get(c["id"]) or {"outcome": ["hang", "no result"]}
+        run.evaluations += 1
+        run.count("only_a_teardown_fails_runs")
+        for sig, text in runoracle.c02_oracle(c, r):
+            run.violation(sig, text, {"case": c, "outcome": r.get("outcome")})
     # skipped although nothing failed: quiet projects interrupted by Ctrl-C at a random step of the main loop; only the success
     # flags are judged (in-flight code is outside the fragment of layer 3: layers 1 and 2 only)
     quiet = dict(PROFILE, p_fail=0.0, p_spawn=0.0)
